@@ -21,13 +21,13 @@ T = {
     'C04': ('exploration', 'exact rational reference for F / NICV / SNR by value classes + superset-class metamorphic twin, both kernels forced through the hook',
             'held on the generated inputs against the definitions evaluated in exact arithmetic, including empty / single / one-trace classes and NaN clauses',
             'trusts python fractions; kernel forced via the SCARED_VERIF hook so that both accumulation strategies are exercised', '5/C04'),
-    'C05': ('exploration', 'independent FIPS-197 reference recording every state; all stop points x key sizes x directions x broadcasting shapes; read-only inputs',
+    'C05': ('exploration', 'independent FIPS-197 reference recording every state; all stop points x key sizes x directions x broadcasting shapes x memory layouts x byte orders; read-only inputs; call histories on shared buffers with retained results re-checked; two concurrent callers',
             'held at every (round, step, direction, key size, shape) stop point on structured and random keys/blocks; primitives exhaustively per byte',
             'trusts the independent reference (self-tested against FIPS-197 vectors and pycryptodome at start; failure = inconclusive)', '5/C05'),
-    'C06': ('exploration', 'independent FIPS 46-3 reference recording every round value; all stop points x key forms x directions x shapes; class-level round templates digest-monitored',
+    'C06': ('exploration', 'independent FIPS 46-3 reference recording every round value; all stop points x key forms x directions x shapes x memory layouts; class-level round templates digest-monitored; call histories on shared buffers with retained results re-checked; two concurrent callers',
             'held at every (des pass, round, step, direction) stop point for DES/TDES2/TDES3 master and expanded keys; primitives exhaustively',
             'trusts the independent reference (self-tested against published vectors and pycryptodome); the step map is fixed in DESIGN 5/C06', '5/C06'),
-    'C07': ('exploration', 'reference-cipher oracle per guess column (a real key is built for every guess) + slicing metamorphic checks',
+    'C07': ('exploration', 'reference-cipher oracle per guess column (a real key is constructed for every guess) + slicing twins (words / guesses in any order, as many guesses as traces) + retained-result and same-batch family histories',
             'held for all ready-made selection functions of both namespaces on random keys / data, every guess column compared with a real cipher state',
             'trusts the independent references of C05/C06', '5/C07'),
     'C08': ('exploration', 'public-state recorder on process()/run() + prefix twin attacks + trace specification on convergence points',
@@ -36,7 +36,7 @@ T = {
     'C09': ('exploration', 'exact Welch oracle + per-thread event log from an in-thread preprocess spy, delay/yield/fault injection, interleaving signatures counted',
             'held on the generated set pairs / batch sizes / schedules; both accumulator threads observed overlapping; injected thread failures re-raised',
             'only interleavings produced by the OS, injected delays and sys.monitoring yield injection are seen; their number is reported', '5/C09'),
-    'C10': ('exploration', 'independent key-schedule references; every (key size, col_in, col_out) window; every DES round / interrupt point',
+    'C10': ('exploration', 'independent key-schedule references; every (key size, col_in, col_out) window; every DES round / interrupt point; key batch layouts and dtypes; random call histories on shared buffers',
             'held on every AES expansion triple and every DES round on structured + random keys; master key recovered from every round key',
             'trusts the independent references', '5/C10'),
     'C11': ('exploration', 'kernel-choice hook (dictate + record) differential, numba thread-count sweep, interpreter-mode kernel sanitizer (bounds, negative index, prange write-set race monitor)',
@@ -51,22 +51,22 @@ T = {
     'C14': ('exploration', 'exact rational class means / pooled covariance, float64 Mahalanobis oracle mapped by class value; state recorder on build/match',
             'held on the generated build / match sets for both template attacks, both kernels forced',
             'covariance of classes with < 2 traces is not judged; scores compared within a conditioning-based tolerance', '5/C14'),
-    'C15': ('exploration', 'python bit_count / shift / naive NaN-skipping reducers; exhaustive 8/16-bit sub-spaces; read-only inputs',
+    'C15': ('exploration', 'python bit_count / shift / naive NaN-skipping reducers; exhaustive 8/16-bit sub-spaces; wide saturated word groups; long axes with NaN windows; model instance reuse with retained results; read-only inputs',
             'exhaustive for uint8/uint16 popcount and Monobit, per-lane exhaustive for 32/64-bit, sampled shapes/axes/nb_words and NaN patterns',
             'trusts python integer arithmetic', '5/C15'),
-    'C16': ('fault_enumeration', 'twin execution with one rejected call inserted at every position, every rejection kind x every distinguisher; state digests compared',
+    'C16': ('fault_enumeration', 'twin execution with one rejected call inserted at every position, every rejection kind (17) x every distinguisher, automatic class sets, analysis-level process()/run() refusals with convergence traces observed',
             'every (subject, fault kind, position <= 4 batches) enumerated; later results and counts equal the twin that never saw the rejected call',
             'only calls that raise are judged; faults inside _update after accumulation started are out of scope', '5/C16'),
     'C17': ('exploration', 'end-to-end attack on leakage simulated from the reference cipher; rank of the expected key with margin recorded',
             'true key ranked first for every attack class x selection function x batch size generated; near-ties counted inconclusive',
             'statistical: fixed wide margin (noise +-0.5, n = 1200..1500); XOR-only targets only with CPA', '5/C17'),
-    'C18': ('exploration', 'naive pair enumeration in exact integer arithmetic rounded once; naive DFT / circular correlation; row-independence twins',
+    'C18': ('exploration', 'naive pair enumeration in exact integer arithmetic rounded once; naive DFT / circular correlation; row-independence twins; second-call twins on the same preprocess object with retained outputs',
             'held on the generated dtype / frame / mode / distance configurations at dtype extremes',
             'Xcorr on odd frame lengths is a known finding pinned by two stable tests', '5/C18'),
     'C19': ('exploration', 'exact rational window statistics, naive scanners, three-clause peak specification evaluated on the returned set; exhaustive small signals',
             'exhaustive over all signals of length <= 6 (quick) / 7 (thorough) over {0..3} x distances x heights; sampled elsewhere',
             'kurtosis / skew on zero-variance windows not judged', '5/C19'),
-    'C20': ('fault_enumeration', 'sequential reference model over the recorded call log of the user function; all 4^N accept/raise/None patterns',
+    'C20': ('fault_enumeration', 'sequential reference model over the recorded call log of the user function; all 4^N accept/raise/None patterns; failure runs at the warning thresholds; check() before run(); pre-existing output; text metadata',
             'every pattern over {accept, ResynchroError, Exception, None} for N <= 4 (quick) / 5 (thorough) + long random patterns',
             'ETS output read back through estraces', '5/C20'),
 }
